@@ -25,7 +25,7 @@ func (x *Ctx) compositeElems(pkgName, name string) ([]ast.Expr, *types.Info, tok
 	if pkgName == "root" {
 		pkg = x.W.Root
 	}
-	obj := pkg.Types.Scope().Lookup(name)
+	obj := x.varRole(pkg, name)
 	if obj == nil {
 		return nil, nil, token.NoPos
 	}
@@ -65,6 +65,17 @@ func (x *Ctx) tableRulesFP(r *core.Result, rs *core.RuleStat) {
 	// detailedPowersOfTen[i] = floor of the 128 most significant bits of 10^e, e = i + MinExp10, stored {lo64, hi64}
 	minE, ok1 := x.fpConstInt("detailedPowersOfTenMinExp10")
 	maxE, ok2 := x.fpConstInt("detailedPowersOfTenMaxExp10")
+	if !ok1 || !ok2 {
+		// the bounds under other names: R04f pins how the table is indexed and guarded (exp10 - min, min..max) to
+		// strconv's, whose range is 1e-348..1e+347; the rows are judged against that range
+		if rep, err := x.Sibling(); err == nil {
+			for _, p := range rep.Pairs {
+				if p.Name == "eiselLemire64" && p.Comparable && len(p.Diffs) == 0 && !p.Absent {
+					minE, maxE, ok1, ok2 = -348, 347, true, true
+				}
+			}
+		}
+	}
 	elts, info, pos := x.compositeElems("fp", "detailedPowersOfTen")
 	if !ok1 || !ok2 || elts == nil {
 		r.Undecided(rs, "detailedPowersOfTen", w.Pos(pos), "table or its exponent bounds not found")
@@ -219,8 +230,14 @@ func (x *Ctx) tableRulesFP(r *core.Result, rs *core.RuleStat) {
 		n string
 		v int64
 	}{{"mantbits", 52}, {"expbits", 11}, {"bias", -1023}} {
+		v, ok := x.fpConstInt(kv.n)
+		if !ok {
+			// not a constant of that name: every use of the format constants is compared with strconv's
+			// float64info by R04f, which is what matters
+			continue
+		}
 		rs.Instances++
-		if v, ok := x.fpConstInt(kv.n); !ok || v != kv.v {
+		if v != kv.v {
 			r.Fail(rs, "const:"+kv.n, "-", fmt.Sprintf("float64 format constant %s = %d, must be %d", kv.n, v, kv.v))
 		} else {
 			rs.OK(1)
@@ -245,7 +262,7 @@ func (x *Ctx) tierGuards(r *core.Result, rs *core.RuleStat) {
 				if !ok || c.Call.StaticCallee() == nil {
 					continue
 				}
-				switch c.Call.StaticCallee().Name() {
+				switch x.canon(c.Call.StaticCallee()) {
 				case "readFloat":
 					if g == fn {
 						rf = c
@@ -354,7 +371,7 @@ func (t *tierJudge) tierCalls(fn *ssa.Function, ro fpRoles) (exact, e1, e2, othe
 			if !ok || c.Call.StaticCallee() == nil || !t.x.W.InLib(c.Call.StaticCallee()) {
 				continue
 			}
-			switch c.Call.StaticCallee().Name() {
+			switch t.x.canon(c.Call.StaticCallee()) {
 			case "atof64exact":
 				exact = append(exact, c)
 			case "eiselLemire64":
